@@ -115,6 +115,8 @@ class Facts:
         self.extract_s = 0.0
         self.cache_hit = False
         self.repo = None
+        self.absorbed = {}    # key -> helper function every call of which was inlined (analysed in its callers)
+        self.norm_stats = {}
 
     def fn(self, qn, sig=None, required=True, rule="anchor"):
         """Return the unique function with this qualified name (and signature if given)."""
@@ -228,5 +230,8 @@ def load(repo=None, extra_tus=None, extra_roots=None, use_cache=True, only_tus=N
                 facts.vars.append(v)
         for h in d["hashinst"]:
             facts.hashinst.setdefault(h["fn"], h)
+    if os.environ.get("VERIF_NO_NORMALISE") != "1":
+        from . import normalize
+        normalize.normalise(facts)
     facts.extract_s = time.time() - t0
     return facts
